@@ -50,7 +50,7 @@ def run(rep, tier, seed):
     ci = 0
     for style in ("emacs", "vi"):
         for chunk in chunks(words[style], 25):
-            cs = {"id": "c18-%s-%d" % (style, ci), "inputrc": ("set editing-mode vi\n" if style == "vi" else "") + '"\\C-o": "xy "\n', "w": 80, "h": 24, "prompt": "> ",
+            cs = {"id": "c18-%s-%d" % (style, ci), "inputrc": ("set editing-mode vi\n" if style == "vi" else "") + '"\\C-o": "xy "\n' + case_options(rng, ci, skip=("autocomplete", "keyseq-timeout")), "w": 80, "h": 24, "prompt": "> ",
                   "setups": [], "sessions": [], "wrap": "none"}
             ci += 1
             pairs = []
